@@ -478,3 +478,31 @@ pub fn gen_c17(tier: &str, rng: &mut Rng, w: &mut dyn Write) {
     }
     let _ = W_PALETTE;
 }
+
+/// C15: k evaluators with their own flop / ranges / scope, interleaved and threaded
+pub fn gen_c15(tier: &str, rng: &mut Rng, w: &mut dyn Write) {
+    use crate::gen2::{random_flop, random_pos, random_range};
+    for _ in 0..(if tier == "thorough" { 400 } else { 40 }) {
+        let k = 2 + rng.below(5) as usize;
+        let mut line = format!("c15 {} {}", rng.next() % 1_000_000_007, k);
+        for _ in 0..k {
+            let flop = random_flop(rng);
+            let (mut a, mut b) = (random_pos(rng), random_pos(rng));
+            if b < a {
+                std::mem::swap(&mut a, &mut b);
+            }
+            let scoped = rng.below(3) != 0;
+            let np = 1 + rng.below(2) as usize;
+            line.push_str(&format!(" | 1 digest 0 {} {} {} - - {} {} {} {} {} {}", flop[0], flop[1], flop[2], a.0, a.1, b.0, b.1, scoped as u8, np));
+            for _ in 0..np {
+                let sz = 1 + rng.below(4) as usize;
+                let r = random_range(rng, sz, false);
+                line.push_str(&format!(" {}", r.len()));
+                for (c, wb) in r {
+                    line.push_str(&format!(" {} {}", c, wb));
+                }
+            }
+        }
+        writeln!(w, "{}", line).unwrap();
+    }
+}
